@@ -577,7 +577,7 @@ def diff_cases(il, ml, skip_prefixes=("prop ",)):
         if b is None:
             diffs.append({"case": k, "kind": "model produced no output for this case"})
             continue
-        b = [l for l in b if not l.startswith(("thm ", "thmh "))]      # model-only lines (theorem hypotheses), read by the caller
+        b = [l for l in b if not l.startswith(("thm ", "thmh ", "tho "))]      # model-only lines (theorem hypotheses), read by the caller
         if a != b:
             d = next((i for i in range(min(len(a), len(b))) if a[i] != b[i]), min(len(a), len(b)))
             diffs.append({"case": k, "line": d, "impl": a[d] if d < len(a) else None,
